@@ -275,10 +275,95 @@ func c13Memory(c *Ctx, idx int, rng *rand.Rand, sc *c13Scenario) {
 	if _, eof := dec.Next(); !eof {
 		viol("bytes", "extra-part", "decoder offers a part beyond the header's list")
 	}
+	// ---- the same payload object encoded again, as the sender does after a failed
+	// request: unchanged (retry), after Remove of a part whose file changed, after a
+	// Split at the number of parts the receiver acknowledged
+	cur := bin
+	for round := 0; round < 3 && rng.Intn(3) != 0; round++ {
+		parts := cur.GetParts()
+		op := "retry"
+		switch k := rng.Intn(3); {
+		case k == 1 && len(parts) > 1:
+			op = "remove"
+			cur.Remove(parts[rng.Intn(len(parts))])
+		case k == 2 && len(parts) > 1:
+			op = "split"
+			n := 1 + rng.Intn(len(parts)-1)
+			if rest := cur.Split(n); rest != nil {
+				if rng.Intn(2) == 0 {
+					cur = rest
+				}
+			}
+		}
+		sc.Note += op + ";"
+		if fp, detail := c13MemRound(cur, files, sc, rng); fp != "" {
+			viol("re-encoded-payload", "reencode-"+op+"/"+fp, fmt.Sprintf("payload encoded again after %q (history %s): %s", op, sc.Note, detail))
+			return
+		}
+		res.Count("reencode_rounds_"+op, 1)
+	}
 	if len(bs) >= 2 || bs[0].off > 0 {
-		res.NonTrivial(fmt.Sprintf("mem/%d/%s/%d/%v", sc.Gzip, sc.Sep, sc.Buf, sc.Parts))
+		res.NonTrivial(fmt.Sprintf("mem/%d/%s/%d/%v/%s", sc.Gzip, sc.Sep, sc.Buf, sc.Parts, sc.Note))
 	}
 	res.Sample(sc)
+}
+
+// c13MemRound encodes the payload as it is now and decodes it; what is decoded
+// must be the payload's current part list with each part's own bytes.
+func c13MemRound(bin sts.Payload, files map[string][]byte, sc *c13Scenario, rng *rand.Rand) (string, string) {
+	want := bin.GetParts()
+	meta, err := bin.EncodeHeader()
+	if err != nil {
+		return "encode-header-error", err.Error()
+	}
+	enc := bin.GetEncoder()
+	defer enc.Close()
+	var stream io.Reader = io.MultiReader(bytes.NewReader(meta), enc)
+	if sc.Gzip >= 0 {
+		var buf bytes.Buffer
+		gz, _ := gzip.NewWriterLevel(&buf, sc.Gzip)
+		if _, err := io.Copy(gz, stream); err != nil {
+			return "encode-stream-error", err.Error()
+		}
+		gz.Close()
+		zr, err := gzip.NewReader(&buf)
+		if err != nil {
+			return "", ""
+		}
+		stream = zr
+	}
+	stream = &limitBufReader{r: stream, max: sc.Buf}
+	dec, err := payload.NewDecoder(len(meta), sc.Sep, stream)
+	if err != nil {
+		return "decode-header-error", err.Error()
+	}
+	got := dec.GetParts()
+	if len(got) != len(want) {
+		return "part-count", fmt.Sprintf("the payload holds %d parts, the receiver decoded %d", len(want), len(got))
+	}
+	for i, w := range want {
+		g := got[i]
+		gb, ge := g.GetSlice()
+		wb, wl := w.GetSlice() // the sender's part reports (offset, length)
+		we := wb + wl
+		if g.GetName() != c13Translate(w.GetName(), sc.Sep) || g.GetPrev() != c13Translate(w.GetPrev(), sc.Sep) || g.GetRenamed() != w.GetRenamed() ||
+			g.GetFileHash() != w.GetFileHash() || g.GetFileSize() != w.GetFileSize() || gb != wb || ge != we || !g.GetFileTime().Equal(w.GetFileTime()) {
+			return "descriptor-mismatch", fmt.Sprintf("part %d: decoded {%q %d-%d hash %s} but the payload's part %d is {%q %d-%d hash %s}", i, g.GetName(), gb, ge, g.GetFileHash(), i, w.GetName(), wb, we, w.GetFileHash())
+		}
+		r, eof := dec.Next()
+		if eof {
+			return "part-missing", fmt.Sprintf("decoder ended before part %d", i)
+		}
+		data, rerr := io.ReadAll(&limitBufReader{r: r, max: 1 + rng.Intn(sc.Buf+1)})
+		wantBytes := files[w.GetName()][wb:we]
+		if rerr != nil || !bytes.Equal(data, wantBytes) {
+			return "part-bytes", fmt.Sprintf("part %d (%s %d-%d): read %d bytes (err %v), equal=%v", i, w.GetName(), wb, we, len(data), rerr, bytes.Equal(data, wantBytes))
+		}
+	}
+	if _, eof := dec.Next(); !eof {
+		return "extra-part", "decoder offers a part beyond the header's list"
+	}
+	return "", ""
 }
 
 // ---- real HTTP
@@ -432,8 +517,50 @@ func c13HTTP(c *Ctx, idx int, rng *rand.Rand, sc *c13Scenario, srv *c13Server) {
 			}
 			res.Count("parts_roundtripped_http", 1)
 		}
+		// ---- the sender's reaction to a failed request: ask what arrived
+		// (the recovery request encodes the header again), drop a part whose file
+		// changed, send the same payload object again
+		if len(bs) > 1 && rng.Intn(2) == 0 {
+			if rng.Intn(2) == 0 {
+				_, _ = cl.RecoverTransmission(bin)
+				sc.Note += "recovery-request;"
+			}
+			parts := bin.GetParts()
+			op := "retry"
+			if rng.Intn(3) != 0 {
+				op = "remove"
+				bin.Remove(parts[rng.Intn(len(parts))])
+			}
+			sc.Note += op + ";"
+			want := bin.GetParts()
+			gk.mu.Lock()
+			gk.recvd = nil
+			gk.mu.Unlock()
+			n, err := cl.Transmit(bin)
+			gk.mu.Lock()
+			got := append([]recPart(nil), gk.recvd...)
+			gk.mu.Unlock()
+			if err != nil || n != len(want) || len(got) != len(want) {
+				viol("re-encoded-payload", "http-reencode-"+op+"/part-count", fmt.Sprintf("payload sent again after %s: it holds %d parts, Transmit returned n=%d err=%v, the receiver saw %d parts", sc.Note, len(want), n, err, len(got)))
+				return
+			}
+			for i, w := range want {
+				g := got[i]
+				wb, wl := w.GetSlice() // the sender's part reports (offset, length)
+				we := wb + wl
+				if g.Name != c13Translate(w.GetName(), "/") || g.Hash != w.GetFileHash() || g.Beg != wb || g.End != we || g.Prev != c13Translate(w.GetPrev(), "/") {
+					viol("re-encoded-payload", "http-reencode-"+op+"/descriptor-mismatch", fmt.Sprintf("payload sent again after %s: part %d received as {%s %d-%d}, the payload's part %d is {%s %d-%d}", sc.Note, i, g.Name, g.Beg, g.End, i, w.GetName(), wb, we))
+					return
+				}
+				if g.Err != "" || !bytes.Equal(g.Data, files[w.GetName()][wb:we]) {
+					viol("re-encoded-payload", "http-reencode-"+op+"/part-bytes", fmt.Sprintf("payload sent again after %s: part %d (%s %d-%d) arrived with %d bytes err=%q, equal=%v", sc.Note, i, w.GetName(), wb, we, len(g.Data), g.Err, bytes.Equal(g.Data, files[w.GetName()][wb:we])))
+					return
+				}
+			}
+			res.Count("http_reencode_rounds_"+op, 1)
+		}
 		if len(bs) >= 2 || bs[0].off > 0 {
-			res.NonTrivial(fmt.Sprintf("http/%d/%v", sc.Gzip, sc.Parts))
+			res.NonTrivial(fmt.Sprintf("http/%d/%v/%s", sc.Gzip, sc.Parts, sc.Note))
 		}
 		res.Sample(sc)
 		return
